@@ -16,15 +16,17 @@
 (* Variables are identified by 1-based positions in outs / ins.            *)
 (* Everything is exact (Rat.tla); index semantics come from NdIndex.tla.   *)
 (***************************************************************************)
-EXTENDS Rat, NdIndex, Naturals, FiniteSets, TLC
+EXTENDS Rat, Naturals, FiniteSets, TLC
 
-OSize(M, o) == Size(M.outs[o].shape)
+Nd == INSTANCE NdIndex     \* instantiated (not extended): NdIndex and Rat both define Norm
+
+OSize(M, o) == Nd!Size(M.outs[o].shape)
 
 \* flat (0-based) source positions read by input i: compose the chain from the source inwards
 RECURSIVE ChainPos(_, _, _)
 ChainPos(chain, k, pos) ==
     IF k > Len(chain) THEN pos
-    ELSE ChainPos(chain, k + 1, ComposePositions(chain[k].idx, chain[k].shape, chain[k].flat, pos))
+    ELSE ChainPos(chain, k + 1, Nd!ComposePositions(chain[k].idx, chain[k].shape, chain[k].flat, pos))
 
 ConnPos(M, i) ==
     LET src == M.ins[i].src
@@ -140,7 +142,7 @@ AllInputs(M, Y) == [i \in 1..Len(M.ins) |-> InVal(M, Y, i)]
 \* --- variables of interest ----------------------------------------------------------------------
 \* voi: [out (output id), idx (NdIndex term or the record [k |-> "none"]), flat, scaler, adder]  (exact rationals)
 VoiPos(M, v) == IF v.idx.k = "none" THEN [k \in 1..OSize(M, v.out) |-> k - 1]
-                ELSE Positions(v.idx, M.outs[v.out].shape, v.flat)
+                ELSE Nd!Positions(v.idx, M.outs[v.out].shape, v.flat)
 
 \* model-units block d(of)/d(wrt) from dY
 Block(M, dY, of, wrt) ==
